@@ -37,12 +37,13 @@ VARIABLES
   l,        \* cursor
   sc,       \* current scenario index
   chans,    \* channel specs of the scenario (sequence of records)
+  subidx,   \* [Side -> [channel -> trace positions of its submit events]]
   ep,       \* [Side -> endpoint monitor state]
   app,      \* [Side -> application-level history]
   quiet,    \* inside the quiet window
   bad, ext  \* violations of listed properties / drift beyond them
 
-vars == <<l, sc, chans, ep, app, quiet, bad, ext>>
+vars == <<l, sc, chans, subidx, ep, app, quiet, bad, ext>>
 
 NCh == Len(chans)
 OrdF == [c \in 1..NCh |-> chans[c].ord]
@@ -58,9 +59,15 @@ EmptyEp(nch) ==
     setupRx |-> FALSE,        \* a set-up chunk was received while Connected (until the next snap)
     snapNext |-> 0, snapCum |-> 0, snapTag |-> 0, hasSnap |-> FALSE,
     tag    |-> 0 ]            \* own initiate tag (index), 0 = not announced yet
+\* Submitted messages are not copied: `subidx` (given by the reset event) lists, per side and
+\* channel, the trace positions of the submit events in submission order; message j of (side, channel)
+\* is Rec[subidx[side][ch][j]] and counts as submitted once the cursor has passed it.  What has been
+\* delivered is kept as the length `np` of the in-order prefix 1..np plus the other indices `extra`
+\* (constant work per event on the common path, also for 65 536+ messages on a channel).
 EmptyApp(nch) ==
-  [ subm   |-> [c \in 1..nch |-> <<>>],     \* [mid, len, h]
-    got    |-> [c \in 1..nch |-> <<>>],     \* indices into the peer's subm, in arrival order
+  [ nsub   |-> [c \in 1..nch |-> 0],        \* number of messages submitted so far
+    np     |-> [c \in 1..nch |-> 0],
+    extra  |-> [c \in 1..nch |-> <<>>],
     opens  |-> [c \in 1..nch |-> 0],
     closes |-> [c \in 1..nch |-> 0],
     announced |-> [c \in 1..nch |-> 0] ]
@@ -73,7 +80,7 @@ Chk(b, ok, prop, rule, d) == IF prop \in Props /\ ~ok THEN Note(b, prop, rule, d
 ChkX(x, ok, rule, d) == IF ~ok THEN Note(x, "EXT", rule, d) ELSE x
 
 Init ==
-  /\ l = 1 /\ sc = 0 /\ chans = <<>>
+  /\ l = 1 /\ sc = 0 /\ chans = <<>> /\ subidx = [s \in Side |-> <<>>]
   /\ ep = [s \in Side |-> EmptyEp(0)]
   /\ app = [s \in Side |-> EmptyApp(0)]
   /\ quiet = FALSE
@@ -87,6 +94,7 @@ IsSide(s) == s \in Side
 Reset ==
   /\ Ev.e = "reset"
   /\ sc' = Ev.sc /\ chans' = Ev.chans
+  /\ subidx' = [s \in Side |-> Ev.subidx[s]]
   /\ ep' = [s \in Side |-> EmptyEp(Len(Ev.chans))]
   /\ app' = [s \in Side |-> EmptyApp(Len(Ev.chans))]
   /\ quiet' = FALSE
@@ -96,8 +104,8 @@ Reset ==
 (* Application level: the properties C01 and C12 speak about these events  *)
 Submit ==
   /\ Ev.e = "submit"
-  /\ app' = [app EXCEPT ![Ev.s].subm[Ev.ch] = Append(@, [mid |-> Ev.mid, len |-> Ev.len, h |-> Ev.h])]
-  /\ UNCHANGED <<sc, chans, ep, quiet, bad, ext>> /\ Adv
+  /\ app' = [app EXCEPT ![Ev.s].nsub[Ev.ch] = @ + 1]
+  /\ UNCHANGED <<sc, chans, subidx, ep, quiet, bad, ext>> /\ Adv
 
 RelOrd(c) == chans[c].ord /\ chans[c].rel
 SeqMax(q) == LET RECURSIVE F(_)
@@ -108,39 +116,47 @@ InSeq(x, q) == \E k \in 1..Len(q) : q[k] = x
 RecvMsg ==
   /\ Ev.e = "recv" /\ Ev.kind = "msg"
   /\ LET s == Ev.s  c == Ev.ch  p == Peer(s)
-         sub == app[p].subm[c]
-         got == app[s].got[c]
-         same(j) == sub[j].len = Ev.len /\ sub[j].h = Ev.h
-         cands == {j \in 1..Len(sub) : same(j)}
-         fresh == {j \in cands : ~InSeq(j, got)}
-         after == {j \in fresh : j > SeqMax(got)}
-         \* which submitted message this arrival is taken to be
-         pick == IF after # {} THEN CHOOSE j \in after : \A k \in after : j <= k
-                 ELSE IF fresh # {} THEN CHOOSE j \in fresh : \A k \in fresh : j <= k
+         n == app[p].nsub[c]                       \* submitted so far by the peer on this channel
+         Sub(j) == Rec[subidx[p][c][j]]
+         same(j) == Sub(j).len = Ev.len /\ Sub(j).h = Ev.h
+         np == app[s].np[c]
+         extra == app[s].extra[c]
+         k == np + Len(extra) + 1                  \* this is the k-th arrival
+         \* common path: everything so far was the in-order prefix and this is the next message
+         next == extra = <<>> /\ np + 1 <= n /\ same(np + 1)
+         delivered(j) == j <= np \/ InSeq(j, extra)
+         cands == {j \in 1..n : same(j)}
+         fresh == {j \in cands : ~delivered(j)}
+         last == IF SeqMax(extra) > np THEN SeqMax(extra) ELSE np
+         after == {j \in fresh : j > last}
+         pick == IF next THEN np + 1
+                 ELSE IF after # {} THEN CHOOSE j \in after : \A i \in after : j <= i
+                 ELSE IF fresh # {} THEN CHOOSE j \in fresh : \A i \in fresh : j <= i
                  ELSE 0
-         k == Len(got) + 1
-         b1 == Chk(bad, ~RelOrd(c) \/ (k <= Len(sub) /\ same(k)), "C01", "PrefixDelivery",
+         b1 == Chk(bad, ~RelOrd(c) \/ next, "C01", "PrefixDelivery",
                    [side |-> s, ch |-> c, pos |-> k, len |-> Ev.len])
-         b2 == Chk(b1, cands # {}, "C12", "DeliveredIsSubmitted", [side |-> s, ch |-> c, len |-> Ev.len])
-         b3 == Chk(b2, cands = {} \/ fresh # {}, "C12", "NoDuplicate", [side |-> s, ch |-> c, len |-> Ev.len])
-         b4 == Chk(b3, ~chans[c].ord \/ fresh = {} \/ after # {}, "C12", "OrderedInOrder",
+         b2 == Chk(b1, next \/ cands # {}, "C12", "DeliveredIsSubmitted", [side |-> s, ch |-> c, len |-> Ev.len])
+         b3 == Chk(b2, next \/ cands = {} \/ fresh # {}, "C12", "NoDuplicate", [side |-> s, ch |-> c, len |-> Ev.len])
+         b4 == Chk(b3, next \/ ~chans[c].ord \/ fresh = {} \/ after # {}, "C12", "OrderedInOrder",
                    [side |-> s, ch |-> c, len |-> Ev.len])
          b5 == Chk(b4, app[s].opens[c] >= 1, "C12", "OpenBeforeMessage", [side |-> s, ch |-> c])
      IN /\ bad' = b5
-        /\ app' = [app EXCEPT ![s].got[c] = IF pick = 0 THEN @ ELSE Append(@, pick)]
-  /\ UNCHANGED <<sc, chans, ep, quiet, ext>> /\ Adv
+        /\ app' = IF pick = 0 THEN app
+                  ELSE IF pick = np + 1 /\ extra = <<>> THEN [app EXCEPT ![s].np[c] = pick]
+                  ELSE [app EXCEPT ![s].extra[c] = Append(@, pick)]
+  /\ UNCHANGED <<sc, chans, subidx, ep, quiet, ext>> /\ Adv
 
 RecvOpen ==
   /\ Ev.e = "recv" /\ Ev.kind = "open"
   /\ bad' = Chk(bad, app[Ev.s].opens[Ev.ch] = 0, "C12", "OpenOnce", [side |-> Ev.s, ch |-> Ev.ch])
   /\ app' = [app EXCEPT ![Ev.s].opens[Ev.ch] = @ + 1]
-  /\ UNCHANGED <<sc, chans, ep, quiet, ext>> /\ Adv
+  /\ UNCHANGED <<sc, chans, subidx, ep, quiet, ext>> /\ Adv
 
 RecvClose ==
   /\ Ev.e = "recv" /\ Ev.kind = "close"
   /\ bad' = Chk(bad, app[Ev.s].closes[Ev.ch] = 0, "C12", "CloseAtMostOnce", [side |-> Ev.s, ch |-> Ev.ch])
   /\ app' = [app EXCEPT ![Ev.s].closes[Ev.ch] = @ + 1]
-  /\ UNCHANGED <<sc, chans, ep, quiet, ext>> /\ Adv
+  /\ UNCHANGED <<sc, chans, subidx, ep, quiet, ext>> /\ Adv
 
 \* a channel announced in-band appears with the parameters it was created with
 NewChan ==
@@ -153,7 +169,7 @@ NewChan ==
      IN /\ bad' = Chk(Chk(bad, ok, "C12", "DcepParams", [side |-> Ev.s, ch |-> c]),
                       c = 0 \/ app[Ev.s].announced[c] = 0, "C12", "AnnouncedOnce", [side |-> Ev.s, ch |-> c])
         /\ app' = IF c = 0 THEN app ELSE [app EXCEPT ![Ev.s].announced[c] = @ + 1]
-  /\ UNCHANGED <<sc, chans, ep, quiet, ext>> /\ Adv
+  /\ UNCHANGED <<sc, chans, subidx, ep, quiet, ext>> /\ Adv
 
 ---------------------------------------------------------------------------
 (* Sender side: tx events of the run loop (C13)                            *)
@@ -190,7 +206,7 @@ Tx ==
          b3 == Chk(b2, Ev.len <= MTU, "C13", "PacketFitsMtu", [side |-> s, len |-> Ev.len])
      IN /\ ep' = [ep EXCEPT ![s] = r.e]
         /\ bad' = b3
-  /\ UNCHANGED <<sc, chans, app, quiet, ext>> /\ Adv
+  /\ UNCHANGED <<sc, chans, subidx, app, quiet, ext>> /\ Adv
 
 ---------------------------------------------------------------------------
 (* Receive side: rx events, one per chunk, before the handler runs         *)
@@ -223,7 +239,7 @@ Rx ==
          ELSE IF t \in {10, 11} THEN
            ep' = [ep EXCEPT ![s].setupRx = (e.st = "Connected")]
          ELSE UNCHANGED ep)
-  /\ UNCHANGED <<sc, chans, app, quiet, bad, ext>> /\ Adv
+  /\ UNCHANGED <<sc, chans, subidx, app, quiet, bad, ext>> /\ Adv
 
 \* internal delivery hook: must be what the model's receive path produced (beyond the listed properties)
 DeliverHook ==
@@ -232,12 +248,12 @@ DeliverHook ==
          ok == q # <<>> /\ q[1].ch = Ev.ch /\ q[1].len = Ev.len
      IN /\ ext' = ChkX(ext, ok, "DeliverMatchesModel", [side |-> s, ch |-> Ev.ch, len |-> Ev.len])
         /\ ep' = [ep EXCEPT ![s].expDel = IF ok THEN Tail(q) ELSE <<>>]
-  /\ UNCHANGED <<sc, chans, app, quiet, bad>> /\ Adv
+  /\ UNCHANGED <<sc, chans, subidx, app, quiet, bad>> /\ Adv
 
 T3 ==
   /\ Ev.e = "timer"
   /\ ep' = IF Ev.what = "t3" THEN [ep EXCEPT ![Ev.s].since = 0] ELSE ep
-  /\ UNCHANGED <<sc, chans, app, quiet, bad, ext>> /\ Adv
+  /\ UNCHANGED <<sc, chans, subidx, app, quiet, bad, ext>> /\ Adv
 
 \* state projection logged at the end of each handler: the model's prediction is compared (EXT) and
 \* the model adopts the logged value
@@ -261,7 +277,7 @@ Snap ==
                             ![s].expDel = IF Ev.at = "rx" THEN <<>> ELSE @,
                             ![s].snapNext = Ev.next, ![s].snapCum = Ev.cum, ![s].snapTag = Ev.mytag,
                             ![s].hasSnap = TRUE]
-  /\ UNCHANGED <<sc, chans, app, quiet, bad>> /\ Adv
+  /\ UNCHANGED <<sc, chans, subidx, app, quiet, bad>> /\ Adv
 
 ---------------------------------------------------------------------------
 (* The proxy's view of the wire: every SCTP packet a sender emitted (C13)  *)
@@ -278,24 +294,24 @@ Net ==
      IN /\ bad' = b4
         \* the initiate tag a side announces is the tag its peer must use from then on
         /\ ep' = IF Ev.itag # 0 /\ ep[from].tag = 0 THEN [ep EXCEPT ![from].tag = Ev.itag] ELSE ep
-  /\ UNCHANGED <<sc, chans, app, quiet, ext>> /\ Adv
+  /\ UNCHANGED <<sc, chans, subidx, app, quiet, ext>> /\ Adv
 
 ---------------------------------------------------------------------------
 Mark ==
   /\ Ev.e = "mark"
   /\ quiet' = IF Ev.what = "quiet_begin" THEN TRUE ELSE IF Ev.what = "quiet_end" THEN FALSE ELSE quiet
-  /\ UNCHANGED <<sc, chans, ep, app, bad, ext>> /\ Adv
+  /\ UNCHANGED <<sc, chans, subidx, ep, app, bad, ext>> /\ Adv
 
 \* end of scenario: the harness reports whether everything submitted on reliable channels arrived
 \* within the deadline after the last fault (C01 liveness clause; confirmed by re-runs in the driver)
 End ==
   /\ Ev.e = "end"
   /\ bad' = Chk(bad, Ev.complete \/ Ev.closed, "C01", "EventuallyDelivered", [complete |-> Ev.complete])
-  /\ UNCHANGED <<sc, chans, ep, app, quiet, ext>> /\ Adv
+  /\ UNCHANGED <<sc, chans, subidx, ep, app, quiet, ext>> /\ Adv
 
 Other ==
   /\ Ev.e \notin {"reset", "submit", "recv", "newchan", "tx", "rx", "deliver", "timer", "snap", "net", "mark", "end"}
-  /\ UNCHANGED <<sc, chans, ep, app, quiet, bad, ext>> /\ Adv
+  /\ UNCHANGED <<sc, chans, subidx, ep, app, quiet, bad, ext>> /\ Adv
 
 Next ==
   /\ l <= N
